@@ -78,6 +78,57 @@ impl<H: ExtendableOutput> ExtendableOutput for Traced<H> {
     }
 }
 
+/// A stand-in "hash" with STRUCTURED digests (the library is generic over the hash, and the
+/// specification treats it as an uninterpreted function): a deterministic function of the input whose
+/// 32-byte outputs come from a catalogue - all zero, leading zero words, all ones, a single low bit,
+/// pseudo-random - so that the field-reduction stage of hash_to_field / hash_to_curve sees blocks no
+/// real hash would ever produce for a message one can find.
+#[derive(Clone, Default)]
+pub struct Toy {
+    acc: u64,
+    n: u64,
+}
+impl Input for Toy {
+    fn input<B: AsRef<[u8]>>(&mut self, data: B) {
+        for b in data.as_ref() {
+            self.acc = (self.acc ^ (*b as u64)).wrapping_mul(0x100000001b3).rotate_left(7);
+            self.n += 1;
+        }
+    }
+}
+impl FixedOutput for Toy {
+    type OutputSize = digest::generic_array::typenum::U32;
+    fn fixed_result(self) -> GenericArray<u8, Self::OutputSize> {
+        let mut out = GenericArray::<u8, Self::OutputSize>::default();
+        let mut s = self.acc ^ self.n.wrapping_mul(0x9e3779b97f4a7c15);
+        let mut next = || { s ^= s << 13; s ^= s >> 7; s ^= s << 17; s };
+        let kind = next() % 8;
+        for b in out.iter_mut() {
+            *b = next() as u8;
+        }
+        match kind {
+            0 => for b in out.iter_mut() { *b = 0; },
+            1 => for b in out.iter_mut().take(4) { *b = 0; },
+            2 => for b in out.iter_mut().take(8) { *b = 0; },
+            3 => for b in out.iter_mut() { *b = 0xff; },
+            4 => { for b in out.iter_mut() { *b = 0; } out[31] = 1; }
+            5 => for b in out.iter_mut().take(16) { *b = 0; },
+            _ => {}
+        }
+        out
+    }
+}
+impl Reset for Toy {
+    fn reset(&mut self) {
+        self.acc = 0;
+        self.n = 0;
+    }
+}
+impl BlockInput for Toy {
+    type BlockSize = U64;
+}
+
+type XToy = ExpandMsgXmd<Traced<Toy>>;
 type X256 = ExpandMsgXmd<Traced<sha2::Sha256>>;
 type X512 = ExpandMsgXmd<Traced<sha2::Sha512>>;
 type X224 = ExpandMsgXmd<Traced<sha2::Sha224>>;
@@ -90,6 +141,7 @@ fn expand(x: &str, msg: &[u8], dst: &[u8], len: usize) -> Vec<u8> {
         "xmd-sha256" => X256::expand_message(msg, dst, len),
         "xmd-sha512" => X512::expand_message(msg, dst, len),
         "xmd-sha224" => X224::expand_message(msg, dst, len),
+        "xmd-toy" => XToy::expand_message(msg, dst, len),
         "xmd-sha384" => X384::expand_message(msg, dst, len),
         "xof-shake128" => S128::expand_message(msg, dst, len),
         "xof-shake256" => S256::expand_message(msg, dst, len),
@@ -101,6 +153,7 @@ fn h2f<T: FromRO + J>(x: &str, msg: &[u8], dst: &[u8], count: usize) -> Value {
         "xmd-sha256" => hash_to_field::<T, X256>(msg, dst, count),
         "xmd-sha512" => hash_to_field::<T, X512>(msg, dst, count),
         "xmd-sha224" => hash_to_field::<T, X224>(msg, dst, count),
+        "xmd-toy" => hash_to_field::<T, XToy>(msg, dst, count),
         "xmd-sha384" => hash_to_field::<T, X384>(msg, dst, count),
         "xof-shake128" => hash_to_field::<T, S128>(msg, dst, count),
         "xof-shake256" => hash_to_field::<T, S256>(msg, dst, count),
@@ -111,11 +164,13 @@ fn h2f<T: FromRO + J>(x: &str, msg: &[u8], dst: &[u8], count: usize) -> Value {
 fn h2c<G: Grp>(x: &str, mode: &str, msg: &[u8], dst: &[u8]) -> Value
 where
     G::Base: J,
-    G: HashToCurve<X256> + HashToCurve<X512> + HashToCurve<S128> + HashToCurve<S256>,
+    G: HashToCurve<X256> + HashToCurve<X512> + HashToCurve<S128> + HashToCurve<S256> + HashToCurve<XToy>,
 {
     let p: G = match (x, mode) {
         ("xmd-sha256", "ro") => <G as HashToCurve<X256>>::hash_to_curve(msg, dst),
         ("xmd-sha256", "nu") => <G as HashToCurve<X256>>::encode_to_curve(msg, dst),
+        ("xmd-toy", "ro") => <G as HashToCurve<XToy>>::hash_to_curve(msg, dst),
+        ("xmd-toy", "nu") => <G as HashToCurve<XToy>>::encode_to_curve(msg, dst),
         ("xmd-sha512", "ro") => <G as HashToCurve<X512>>::hash_to_curve(msg, dst),
         ("xmd-sha512", "nu") => <G as HashToCurve<X512>>::encode_to_curve(msg, dst),
         ("xof-shake128", "ro") => <G as HashToCurve<S128>>::hash_to_curve(msg, dst),
